@@ -348,7 +348,7 @@ fn log_view(log: &[Event]) -> Vec<String> {
                 Answer::True => "true".to_string(),
                 Answer::False => "false".to_string(),
                 Answer::Opened => "opened".to_string(),
-                Answer::Err(k) => format!("err({:?})", k),
+                Answer::Err(k) => format!("err({})", k),
                 Answer::Stream { delivered, end, .. } => format!("stream({},{})", delivered, end),
             };
             format!("{} {} -> {}", e.op, e.path, a)
